@@ -160,6 +160,16 @@ def main(argv=None):
     prop = args.prop
     seed = int(os.environ.get('VERIF_SEED', '0') or 0)
     t0 = time.time()
+    # hard caps (DESIGN 3): hitting one is an infrastructure error (exit 2), never a VIOLATION
+    import signal
+    cap = int(os.environ.get('HDV_CAP_S', '0') or 0) or (900 if args.tier == 'quick' else 3600)
+
+    def _timeout(signum, frame):
+        print(f'TIMEOUT property={prop} tier={args.tier} after {cap}s (infrastructure error, no verdict)')
+        sys.stdout.flush()
+        os._exit(2)
+    signal.signal(signal.SIGALRM, _timeout)
+    signal.alarm(cap)
     try:
         return _run(prop, args.tier, seed, args, t0)
     except SystemExit:
